@@ -133,6 +133,51 @@ func stressStable(rng *rand.Rand) string {
 	return ""
 }
 
+// stressExclusive: Exclusive and the stability clauses of BarRules.tla at every moment, not only at the end.  A bar reaches a
+// terminal state in a container that refreshes once an hour, so its goroutine stays alive and every getter is a round trip;
+// several goroutines ask Completed() and several ask Aborted() at the same time.  Every answer must be the bar's state.
+func stressExclusive(rng *rand.Rand) string {
+	p := mpb.New(mpb.WithOutput(io.Discard), mpb.WithAutoRefresh(), mpb.WithRefreshRate(time.Hour))
+	other := p.AddBar(1)
+	bar := p.AddBar(3)
+	abort := rng.Intn(2) == 0
+	if abort {
+		bar.IncrBy(1)
+		bar.Abort(false)
+	} else {
+		bar.IncrBy(3)
+	}
+	// the terminal answer is in once one sequential read has seen it
+	for i := 0; i < 1000000 && !(bar.Completed() || bar.Aborted()); i++ {
+	}
+	var bad atomic.Value
+	var wg sync.WaitGroup
+	for g := 0; g < 6; g++ {
+		wg.Add(1)
+		go func(g int) {
+			defer wg.Done()
+			for i := 0; i < 400; i++ {
+				if g%2 == 0 {
+					if c := bar.Completed(); c == abort {
+						bad.Store(fmt.Sprintf("Completed() = %v on a bar that was %s, while other goroutines ask Aborted()", c, map[bool]string{true: "aborted", false: "completed"}[abort]))
+						return
+					}
+				} else if a := bar.Aborted(); a != abort {
+					bad.Store(fmt.Sprintf("Aborted() = %v on a bar that was %s, while other goroutines ask Completed()", a, map[bool]string{true: "aborted", false: "completed"}[abort]))
+					return
+				}
+			}
+		}(g)
+	}
+	wg.Wait()
+	other.IncrBy(1)
+	p.Shutdown()
+	if s, ok := bad.Load().(string); ok {
+		return s
+	}
+	return ""
+}
+
 func TestStress(t *testing.T) {
 	outp := os.Getenv("VH_OUT")
 	if outp == "" {
@@ -150,10 +195,10 @@ func TestStress(t *testing.T) {
 	rng := rand.New(rand.NewSource(seed))
 	n := 0
 	for i := 0; i < trials; i++ {
-		for k, f := range []func(*rand.Rand) string{stressMono, stressStable} {
+		for k, f := range []func(*rand.Rand) string{stressMono, stressStable, stressExclusive} {
 			n++
 			if msg := f(rng); msg != "" {
-				fmt.Fprintf(w, "{\"row\":%d,\"kind\":%q,\"msg\":%q}\n", i, []string{"mono", "stable"}[k], msg)
+				fmt.Fprintf(w, "{\"row\":%d,\"kind\":%q,\"msg\":%q}\n", i, []string{"mono", "stable", "exclusive"}[k], msg)
 			}
 		}
 	}
